@@ -15,7 +15,6 @@ package txlocator_test
 
 import (
 	"fmt"
-	"os"
 	"runtime/debug"
 	"sort"
 	"strings"
@@ -891,16 +890,7 @@ func c11Configs(r *ev.Run) []c11Config {
 	var out []c11Config
 	maxLive := r.Pick(2, 3)
 	depth := 20
-	if v := os.Getenv("C11_DEPTH"); v != "" {
-		fmt.Sscan(v, &depth)
-	}
 	depth2 := r.Pick(4, 20)
-	if v := os.Getenv("C11_DEPTH2"); v != "" {
-		fmt.Sscan(v, &depth2)
-	}
-	if v := os.Getenv("C11_LIVE"); v != "" {
-		fmt.Sscan(v, &maxLive)
-	}
 	for _, th0 := range ths {
 		for _, ts := range tss {
 			// normal group: thresholds may change between blocks (governance)
